@@ -88,6 +88,9 @@ def run(ctx):
             cases.append((ver, rh.replace("/", "|", 1)))
             cases.append((rng.choice("234"), rh))  # other class
     cases = list(dict.fromkeys(cases))
+    from .. import conc
+    conc.flag_variants(ctx, [["R", v, t] for v, t in cases[:: max(1, len(cases) // ctx.n(200, 2000))] if core.sendable(t)], "rh")
+    conc.pickle_across(ctx, [(v, s) for v, s in seeds[:: max(1, len(seeds) // 40)]], "rh")
     ctx.count(len(cases))
     ctx.sample({"from_rh_vector": cases[3][1], "class": "CVSS" + cases[3][0]})
     ascii_cases = [(v, t) for v, t in cases if core.sendable(t) and all(ord(c) < 128 for c in t.split("/", 1)[0])]
